@@ -218,9 +218,12 @@ func newGate(rec *recorder) *gate {
 }
 
 func spanID(name string) int {
+	if len(name) < 2 {
+		return 999998
+	}
 	n, err := strconv.Atoi(name[1:])
-	if err != nil {
-		return -1
+	if err != nil || n < 0 {
+		return 999998
 	}
 	return n
 }
@@ -229,6 +232,10 @@ func (g *gate) ExportSpans(ctx context.Context, spans []sdktrace.ReadOnlySpan) e
 	d := sink.takeForThisGoroutine()
 	b := make([]int, len(spans))
 	for i, s := range spans {
+		if s == nil {
+			b[i] = 999999 // a cleared slot seen by the exporter: the batch was modified during the call
+			continue
+		}
 		b[i] = spanID(s.Name())
 	}
 	g.mu.Lock()
